@@ -149,8 +149,11 @@ fn do_call(sd: &Drv, card: &SimCard, call: &SdCall, blocks_cap: u64, written: &[
                 Ok(Out::Unit)
             }
             SdCall::Beyond { write, past, n, seed } => {
-                let n = (*n).clamp(1, 3) as u32;
-                let s0 = blocks_cap + *past as u64 % 4;
+                // past < 128: the transfer starts behind the last block; otherwise it starts on
+                // one of the last blocks and runs over the end of the card
+                let crossing = *past >= 128 && blocks_cap >= 3;
+                let n = if crossing { (*n).clamp(2, 3) as u32 } else { (*n).clamp(1, 3) as u32 };
+                let s0 = if crossing { blocks_cap - 1 - (*past as u64 % (n as u64 - 1)) } else { blocks_cap + *past as u64 % 4 };
                 if s0 + n as u64 > u32::MAX as u64 {
                     return Ok(Out::Unit);
                 }
@@ -164,6 +167,8 @@ fn do_call(sd: &Drv, card: &SimCard, call: &SdCall, blocks_cap: u64, written: &[
                     sd.read(&mut bl, BlockIdx(start))
                 };
                 match r {
+                    // the card was never identified: that is a failed first use, not a refusal
+                    Err(e) if card.0.borrow().inits_completed == 0 => Err(format!("{:?}", e)),
                     Err(_) => Ok(Out::Refused),
                     Ok(()) => Err(format!("transfer of {} block(s) at block {} succeeded although the card has only {} blocks", n, start, blocks_cap)),
                 }
@@ -342,6 +347,16 @@ pub fn run_clean(c: &SdCase, split: bool, prop: &'static str, acc: &mut Acc) -> 
                         model.insert(start + k, payload(*seed, k));
                         written.push(start + k);
                     }
+                }
+                (SdCall::Beyond { write: true, seed, .. }, Out::Refused) if (start as u64) < blocks_cap => {
+                    // a write that runs over the end of the card fails as a whole, but the blocks
+                    // in front of the end have been stored - as the same single-block writes
+                    // would have stored them before the first one fails
+                    for k in 0..(blocks_cap - start as u64) as u32 {
+                        model.insert(start + k, payload(*seed, k));
+                        written.push(start + k);
+                    }
+                    acc.class("call:write-running-over-the-end");
                 }
                 (SdCall::NumBlocks, Out::Blocks(b)) => {
                     let want = capacity_blocks(v2_layout, &c.cap);
@@ -788,9 +803,9 @@ pub fn timing_strategy(near_budget: bool) -> BoxedStrategy<Timing> {
         prop_oneof![3 => Just(0u8), 1 => Just(0x20u8), 1 => Just(0x01u8), 1 => Just(0x08u8), 1 => Just(0x29u8)],
         prop::bool::weighted(0.15),
         // busy after the stop token of a multi-block write: as after any other data block
-        (prop_oneof![6 => (0u16..60), 2 => Just(0u16), 2 => (10_001u16..49_000)], any::<bool>(), any::<bool>(), any::<bool>(), any::<bool>()),
+        (prop_oneof![6 => (0u16..60), 2 => Just(0u16), 2 => (10_001u16..49_000)], any::<bool>(), any::<bool>(), any::<bool>(), any::<bool>(), any::<bool>()),
     )
-        .prop_map(|(ncr, token_delay, busy_write, busy_stop, init_polls, cmd0_ignored, ocr_extra, sluggish, (busy_stop_write, stop_gap, sticky_status, nwr_gap, nrc_gap))| Timing {
+        .prop_map(|(ncr, token_delay, busy_write, busy_stop, init_polls, cmd0_ignored, ocr_extra, sluggish, (busy_stop_write, stop_gap, sticky_status, nwr_gap, nrc_gap, oor_status_only))| Timing {
             ncr,
             token_delay,
             busy_write,
@@ -805,6 +820,7 @@ pub fn timing_strategy(near_budget: bool) -> BoxedStrategy<Timing> {
             sticky_status,
             nwr_gap,
             nrc_gap,
+            oor_status_only,
         })
         .boxed()
 }
@@ -876,7 +892,7 @@ pub fn enumerate_bit_flips(acc: &mut Acc, test: &dyn Fn(&SdCase, &mut Acc) -> Re
                 use_crc: true,
                 acquire_retries: 2,
                 cap: cap.clone(),
-                timing: Timing { ncr: (bit % 9) as u8, token_delay: bit % 5, busy_write: 3, busy_stop: 2, init_polls: 1, cmd0_ignored: 0, ocr_extra: 0, sluggish: false, busy_stop_write: 0, stop_gap: false, sticky_status: false, nwr_gap: false, nrc_gap: false },
+                timing: Timing { ncr: (bit % 9) as u8, token_delay: bit % 5, busy_write: 3, busy_stop: 2, init_polls: 1, cmd0_ignored: 0, ocr_extra: 0, sluggish: false, busy_stop_write: 0, stop_gap: false, sticky_status: false, nwr_gap: false, nrc_gap: false, oor_status_only: false },
                 bg_seed: 77 + bit as u32,
                 calls: vec![SdCall::Write { block: BlockSel::Exact(5), n: 1, seed: bit as u32 }, SdCall::Read { block: BlockSel::Exact(5), n: 1 }, SdCall::Read { block: BlockSel::Exact(5), n: 1 }],
                 faults: vec![Fault::FlipBit { nth_read: 0, bit }],
@@ -899,7 +915,7 @@ pub fn enumerate_bit_flips(acc: &mut Acc, test: &dyn Fn(&SdCase, &mut Acc) -> Re
                         use_crc: false,
                         acquire_retries: 2,
                         cap: cap.clone(),
-                        timing: Timing { ncr: 1, token_delay: 1, busy_write: 0, busy_stop: 0, init_polls: 0, cmd0_ignored: 0, ocr_extra: 0, sluggish: false, busy_stop_write: 0, stop_gap: false, sticky_status: false, nwr_gap: false, nrc_gap: false },
+                        timing: Timing { ncr: 1, token_delay: 1, busy_write: 0, busy_stop: 0, init_polls: 0, cmd0_ignored: 0, ocr_extra: 0, sluggish: false, busy_stop_write: 0, stop_gap: false, sticky_status: false, nwr_gap: false, nrc_gap: false, oor_status_only: false },
                         bg_seed: 3,
                         calls: vec![call, SdCall::Read { block: BlockSel::Zero, n: 1 }],
                         faults: vec![Fault::FlipBit { nth_read: 0, bit }],
